@@ -29,6 +29,7 @@ type Ledger struct {
 	Property    string        `json:"property"`
 	Generated   string        `json:"generated"`
 	Obligations []LedgerEntry `json:"obligations"`
+	Undecided   []string      `json:"undecided_on_unchanged_tree"`
 }
 
 type Finding struct {
@@ -178,6 +179,10 @@ type runOutput struct {
 }
 
 func (w *World) runProperty(prop string, tmo int, dir string, only map[string]bool, shortTmo int) *runOutput {
+	return w.runPropertySkip(prop, tmo, dir, only, shortTmo, nil)
+}
+
+func (w *World) runPropertySkip(prop string, tmo int, dir string, only map[string]bool, shortTmo int, skip map[string]bool) *runOutput {
 	out := &runOutput{libs: map[string]bool{}, assumed: map[string]bool{}, outside: map[string]string{}, solverSecs: map[string]float64{}, solverCount: map[string]int{}}
 	var all []*Obl
 	for _, f := range w.functionsFor(prop) {
@@ -213,6 +218,9 @@ func (w *World) runProperty(prop string, tmo int, dir string, only map[string]bo
 	for _, o := range all {
 		if only == nil || only[o.Name] {
 			main = append(main, o)
+		} else if skip[o.Name] {
+			o.Status = "skipped"
+			o.Solver = ""
 		} else {
 			rest = append(rest, o)
 		}
@@ -304,6 +312,7 @@ func cmdLedger(args []string) {
 				pos = r.Worst.Pos
 			}
 			fmt.Printf("  not in ledger: %-9s %s [%s] %.1fs\n", r.Status, n, pos, r.MaxSecs)
+			led.Undecided = append(led.Undecided, n)
 		}
 	}
 	for _, n := range ro.notes {
@@ -383,9 +392,18 @@ func cmdCheck(args []string) {
 	for n := range knownObl {
 		only[n] = true
 	}
+	skip := map[string]bool{}
+	if *tier != "thorough" {
+		// obligations that were already undecided on the unchanged tree are not re-attempted in the quick tier
+		for _, n := range led.Undecided {
+			if !only[n] {
+				skip[n] = true
+			}
+		}
+	}
 	dir, _ := os.MkdirTemp("", "govc")
 	defer os.RemoveAll(dir)
-	ro := w.runProperty(*prop, tmo, dir, only, shortT)
+	ro := w.runPropertySkip(*prop, tmo, dir, only, shortT, skip)
 
 	replayDir := filepath.Join(*verif, "replay", *prop)
 	violations := 0
